@@ -1171,7 +1171,13 @@ extern void
 io_close(file_pair *pair, bool success)
 {
 	// Take care of sparseness at the end of the output file.
-	if (success && pair->dest_try_sparse
+	//
+	// If the operation failed, a file created by us will be removed so
+	// there's no need to do this. But standard output isn't removed:
+	// like the rest of the successfully decoded data, the zeros counted
+	// in dest_pending_sparse must be written also when decoding failed.
+	if ((success || pair->dest_fd == STDOUT_FILENO)
+			&& pair->dest_try_sparse
 			&& pair->dest_pending_sparse > 0) {
 		// Seek forward one byte less than the size of the pending
 		// hole, then write one zero-byte. This way the file grows
